@@ -1,9 +1,12 @@
+import SignaloModel.Proofs.BridgePipes
 import SignaloModel.Model.Pipes
 import SignaloModel.Model.PipesSink
 /-!
 # C01 — Pipes compose stages as sequential function application
 
-Property theorems for C01 (statements are printed by `#check`, axioms by `#print axioms`;
+Property theorems for C01 (statements are printed by `#check`, axioms by `#check @PipeRegistry.stage_run_eq
+#check @PipeRegistry.stage_run_leafOut
+#print axioms`;
 `bin/check C01` re-elaborates this file on every run and audits the axiom lists).
 -/
 open SignaloModel
@@ -21,3 +24,5 @@ open SignaloModel
 #print axioms Pipes.pulls_eq
 #print axioms Pipes.runOpt_none_iff
 #print axioms Pipes.finalize_eq
+#print axioms PipeRegistry.stage_run_eq
+#print axioms PipeRegistry.stage_run_leafOut
